@@ -290,8 +290,20 @@ func init() {
 				}
 			}
 			c.Eval()
-			if err != nil || !bytes.Equal(byValue, data) {
-				c.Fail("", "a Geometry marshalled by value is a different document from the one marshalled through a pointer", map[string]interface{}{"case": d(), "by_value": c02trunc(byValue), "by_pointer": c02trunc(data), "err": sv(err)})
+			// (not necessarily the same bytes as through the pointer: the same geometry, RFC 7946 shaped)
+			var gv interface{}
+			shape := "not valid JSON"
+			if err == nil && json.Unmarshal(byValue, &gv) == nil {
+				shape = c02shape(gv)
+			}
+			back, uerr := geojson.UnmarshalGeometry(byValue)
+			switch {
+			case err != nil || shape != "":
+				c.Fail("", "a Geometry marshalled by value is not an RFC 7946 geometry document: "+shape, map[string]interface{}{"case": d(), "by_value": c02trunc(byValue), "by_pointer": c02trunc(data), "err": sv(err)})
+			case uerr != nil || back == nil || !refmodel.EqualValues(normGJ(back.Geometry()), want):
+				c.Fail("", "a Geometry marshalled by value does not unmarshal to the same geometry", map[string]interface{}{"case": d(), "by_value": c02trunc(byValue), "by_pointer": c02trunc(data), "err": sv(uerr)})
+			case bytes.Equal(byValue, data):
+				c.Count("by_value_documents_byte_equal_to_the_pointer_form", 1)
 			}
 		}
 		var generic interface{}
